@@ -924,9 +924,36 @@ func IngressNamespaceScoping(p *core.Program, r *core.Report, rule string) {
 						ok = true
 					}
 				}
-			}
-			if core.RefName(fn) == "convertServiceSelectorToLabelSelector" && len(c.Args) == 1 && fieldPathEndsWith(info, c.Args[0], "ServiceSpec", "Selector") {
-				okSel = true
+				// the selector handed over derives from the service's own spec.selector (through locals, a conversion
+				// helper, or the conversion written in place)
+				var derives func(e ast.Expr, depth int) bool
+				derives = func(e ast.Expr, depth int) bool {
+					found := false
+					ast.Inspect(e, func(m ast.Node) bool {
+						if found {
+							return false
+						}
+						switch y := m.(type) {
+						case *ast.SelectorExpr:
+							if fieldPathEndsWith(info, y, "ServiceSpec", "Selector") {
+								if root := core.RootIdent(y); root != nil && info.ObjectOf(root) == types.Object(prm) {
+									found = true
+								}
+							}
+						case *ast.Ident:
+							if depth < 4 {
+								if d, _ := defOf(fd, y); d != nil && derives(d, depth+1) {
+									found = true
+								}
+							}
+						}
+						return !found
+					})
+					return found
+				}
+				if derives(c.Args[0], 0) {
+					okSel = true
+				}
 			}
 			return true
 		})
@@ -1044,51 +1071,104 @@ func IngressNamespaceScoping(p *core.Program, r *core.Report, rule string) {
 		}
 		r.Check(ok, rule, fd.Key()+": services are resolved in the namespace the Ingress/Route objects were stored under", p.Pos(fd.Decl.Pos()), "", "the namespace passed to the service lookup is not the key of the Ingress/Route map")
 	}
-	// merging: a workload reached through several objects accumulates by Union
-	for _, fn := range []struct{ recv, name string }{{"", "mergeResults"}, {"IngressAnalyzer", "allowedIngressConnectionsByResourcesType"}, {"IngressAnalyzer", "getIngressObjectTargetedPeersAndPorts"}} {
-		fd := p.Func(core.PkgIngress, fn.recv, fn.name)
-		if fd == nil {
-			r.Lost(rule, "ingressanalyzer."+fn.name)
-			continue
+	// merging: a workload reached through several objects accumulates by Union. Anchored by the effect: every store of
+	// an entry into a map of per-workload connection entries (in any function of the package) happens where a comma-ok
+	// lookup of that map is known to have FAILED, and the same function unions into the entry where the lookup is known
+	// to have succeeded - whatever the shape (if/else, early return, a helper).
+	{
+		isConnEntryMap := func(t types.Type) bool {
+			m, ok := t.Underlying().(*types.Map)
+			if !ok {
+				return false
+			}
+			es := types.TypeString(m.Elem(), nil)
+			return strings.HasSuffix(es, ".PeerAndIngressConnSet") || strings.HasSuffix(es, "common.ConnectionSet")
 		}
-		info := fd.Pkg.TypesInfo
-		found, ok := false, false
-		ast.Inspect(fd.Decl.Body, func(n ast.Node) bool {
-			ifs, isIf := n.(*ast.IfStmt)
-			if !isIf || ifs.Else == nil || ifs.Init == nil {
-				return true
-			}
-			as, isAs := ifs.Init.(*ast.AssignStmt)
-			if !isAs || len(as.Lhs) != 2 || len(as.Rhs) != 1 {
-				return true
-			}
-			ix, isIx := ast.Unparen(as.Rhs[0]).(*ast.IndexExpr)
-			if !isIx {
-				return true
-			}
-			if !strings.Contains(types.TypeString(info.TypeOf(ix), nil), "Conn") {
-				return true
-			}
-			found = true
-			entry := core.ExprStr(ix)
-			hasStore, hasUnion := false, false
-			ast.Inspect(ifs, func(m ast.Node) bool {
-				if a2, isA := m.(*ast.AssignStmt); isA && len(a2.Lhs) == 1 && core.ExprStr(a2.Lhs[0]) == entry {
-					hasStore = true
+		nSites := 0
+		for _, fd := range p.FuncsIn(core.PkgIngress) {
+			info := fd.Pkg.TypesInfo
+			// comma-ok lookups per map text
+			okVars := map[string][]*types.Var{}
+			ast.Inspect(fd.Decl.Body, func(n ast.Node) bool {
+				as, isAs := n.(*ast.AssignStmt)
+				if !isAs || len(as.Lhs) != 2 || len(as.Rhs) != 1 {
+					return true
 				}
-				if c, isC := m.(*ast.CallExpr); isC {
-					if f := core.Callee(info, c); f != nil && core.RefName(f) == "Union" && strings.HasPrefix(core.ExprStr(c.Fun), entry) {
-						hasUnion = true
+				ix, isIx := ast.Unparen(as.Rhs[0]).(*ast.IndexExpr)
+				if !isIx || !isConnEntryMap(info.TypeOf(ix.X)) {
+					return true
+				}
+				if id, isId := as.Lhs[1].(*ast.Ident); isId {
+					if v, isV := info.ObjectOf(id).(*types.Var); isV {
+						okVars[core.ExprStr(ix.X)] = append(okVars[core.ExprStr(ix.X)], v)
 					}
 				}
 				return true
 			})
-			if hasStore && hasUnion {
-				ok = true
+			if len(okVars) == 0 {
+				continue
 			}
-			return true
-		})
-		r.Check(found && ok, rule, fd.Key()+": connections of a workload reached several times are accumulated by Union", p.Pos(fd.Decl.Pos()), "if absent: store; else: Union", "the store-or-Union pattern on the per-workload entry changed: a later Ingress/Route/Service overwrites or drops the earlier ones")
+			w := facts.NewWalker(info)
+			storeOK, unionOK := map[string]bool{}, map[string]bool{}
+			storeBad := ""
+			known := func(f facts.Formula, m string, positive bool) bool {
+				for _, v := range okVars[m] {
+					at := facts.Formula(facts.Atom("b:" + w.PathOfVar(v)))
+					if !positive {
+						at = facts.MkNot(at)
+					}
+					if facts.Entails(f, at) {
+						return true
+					}
+				}
+				return false
+			}
+			w.OnStmt = func(st ast.Stmt, f facts.Formula) {
+				switch x := st.(type) {
+				case *ast.AssignStmt:
+					if len(x.Lhs) != 1 {
+						return
+					}
+					ix, isIx := ast.Unparen(x.Lhs[0]).(*ast.IndexExpr)
+					if !isIx || !isConnEntryMap(info.TypeOf(ix.X)) {
+						return
+					}
+					m := core.ExprStr(ix.X)
+					if _, has := okVars[m]; !has {
+						return
+					}
+					if known(f, m, false) {
+						storeOK[m] = true
+					} else if storeBad == "" {
+						storeBad = p.Pos(x.Pos())
+					}
+				case *ast.ExprStmt:
+					c, isC := x.X.(*ast.CallExpr)
+					if !isC {
+						return
+					}
+					if fn := core.Callee(info, c); fn == nil || core.RefName(fn) != "Union" {
+						return
+					}
+					for m := range okVars {
+						if known(f, m, true) {
+							unionOK[m] = true
+						}
+					}
+				}
+			}
+			w.WalkBody(fd.Decl.Body, nil)
+			for m := range okVars {
+				if !storeOK[m] && !unionOK[m] && storeBad == "" {
+					continue // a lookup that only reads
+				}
+				nSites++
+				r.Check(storeOK[m] && unionOK[m] && storeBad == "", rule, fmt.Sprintf("%s: connections of a workload reached several times are accumulated by Union (%s)", fd.Key(), core.Stable(info, okVarsMapExpr(fd, m))), p.Pos(fd.Decl.Pos()), "absent: store; present: Union",
+					"the store-or-Union discipline on the per-workload entry changed (store where the entry may exist: "+storeBad+"): a later Ingress/Route/Service overwrites or drops the earlier ones")
+			}
+		}
+		r.RuleCounts[rule+"-merge"] = nSites
+		r.Floor(rule+"-merge", 2)
 	}
 	r.Floor(rule, 10)
 }
@@ -1105,4 +1185,19 @@ func objNamed(fd *core.FuncDecl, name string) types.Object {
 		return obj == nil
 	})
 	return obj
+}
+
+// okVarsMapExpr finds an expression of fd whose printed form is m (for a rename-stable construct).
+func okVarsMapExpr(fd *core.FuncDecl, m string) ast.Node {
+	var out ast.Node
+	ast.Inspect(fd.Decl.Body, func(n ast.Node) bool {
+		if e, ok := n.(ast.Expr); ok && out == nil && core.ExprStr(e) == m {
+			out = e
+		}
+		return out == nil
+	})
+	if out == nil {
+		return fd.Decl.Name
+	}
+	return out
 }
